@@ -235,10 +235,45 @@ def _string_documents(ctx):
                                   {"document text": text, "pointer": ptr, "method": k}, g, w)
 
 
+def _primitives_tie(ctx):
+    """The Python primitives under the pointer model through their own driver operation (`prim.index`): `JSONPointer._index`
+    (index-token pattern, `int()`, the digit limit of CPython, the index range) against `Pointer.indexOf`, `str.lstrip` / `str.strip`
+    against `lstrip` / `strip` (the blank class `isPyBlank`), and the canonical-decimal test against an independent regular expression;
+    every string of length <= 3 over sign / digit / blank / look-alike characters, plus numerals at the range and digit limits."""
+    import re
+
+    from jsonpath import JSONPointer
+
+    alpha = ["0", "1", "9", "-", "+", " ", "_", "a", "\uff11", "\u0662", "\t", "\n", "\x0b", "\x1c", "\x1f", "\x85", "\xa0", "\u1680",
+             "\u2007", "\u2028", "\u202f", "\u205f", "\u3000", "\u200b", "\ufeff"]
+    toks = [""] + alpha + [a + b for a in alpha for b in alpha] + [a + b + c for a in alpha[:12] for b in alpha[:12] for c in alpha[:12]]
+    lim = 2 ** 53
+    for n in (lim - 2, lim - 1, lim, lim + 1, 10 ** 20):
+        toks += [str(n), "-" + str(n), "0" + str(n), "+" + str(n)]
+    for d in (4299, 4300, 4301):
+        toks += ["9" * d, "-" + "9" * d, "1" + "0" * (d - 1)]
+    toks = list(dict.fromkeys(toks))
+    p = JSONPointer("")
+    canon = re.compile(r"(?:0|[1-9][0-9]*)\Z", re.ASCII)
+    outs = ctx.driver.run([{"op": "prim.index", "s": t} for t in toks], jobs=ctx.jobs)
+    for t, m in zip(toks, outs):
+        r = core.outcome(lambda: p._index(t))
+        impl = {"ok": r["ok"]} if "ok" in r else {"err": r["err"]}
+        ctx.case(("prim.index", t), nontrivial=bool(t))
+        model = m.get("index")
+        if impl != model or ("ok" in impl and type(impl["ok"]) is not type(model["ok"])):
+            ctx.mismatch("prim.index", {"token": t if len(t) < 60 else t[:20] + "...(%d chars)" % len(t)}, impl, model if len(str(model)) < 200 else str(model)[:200])
+        if m.get("lstrip") != t.lstrip() or m.get("strip") != t.strip():
+            ctx.mismatch("prim.strip", {"text": t[:60]}, {"lstrip": t.lstrip()[:60], "strip": t.strip()[:60]}, {"lstrip": str(m.get("lstrip"))[:60], "strip": str(m.get("strip"))[:60]})
+        if m.get("canon") is not bool(canon.match(t)):
+            ctx.mismatch("prim.canon", {"text": t[:60]}, bool(canon.match(t)), m.get("canon"))
+
+
 def evaluate(ctx, cases):
     if not getattr(ctx, "_strdocs_done", False):
         ctx._strdocs_done = True
         _string_documents(ctx)
+        _primitives_tie(ctx)
     reqs = []
     for c in cases:
         try:
